@@ -136,6 +136,8 @@ func main() {
 		src = genSizeFacts(w, *dump)
 	case "IndexFacts":
 		src = genIndexFacts(w, *dump)
+	case "ConstFacts":
+		src = genConstFacts(w, *dump)
 	case "WrapperFacts":
 		src = genWrapperFacts(w, *dump)
 	default:
